@@ -339,6 +339,13 @@ Ltac split_ok H :=
          | (_ && _) = true => let H1 := fresh "Hok" in apply andb_prop in H; destruct H as [H1 H]
          end.
 
+Ltac norm_nat H :=
+  change (Z.to_nat 0) with 0%nat in H; change (Z.to_nat 1) with 1%nat in H; change (Z.to_nat 2) with 2%nat in H;
+  cbn [repeat app map conv1] in H.
+Ltac len_contra H :=
+  exfalso; rewrite ?zlen_cons, ?zlen_nil in H;
+  first [ lia | match goal with ptl : list item |- _ => pose proof (zlen_nonneg ptl); lia end ].
+
 Lemma getitem_regular_tuple x ix k per :
   all_true_arr ix = false -> wf x -> denotes (ndim x) ix k per -> valid_on (shape x) per ->
   exists d0 d', np_regular (dat x) per = Some d0 /\ wrap_new k d0 = Some d' /\
@@ -357,19 +364,19 @@ Proof.
   wf_cases x Hwf; unfold ndim in *; cbn [shape dat chan meta s0 fsn fsd] in *.
   - (* 1-D *)
     change (zlen [t1]) with 1 in *.
-    destruct per as [|it [|? ?]]; try (rewrite ?zlen_cons, ?zlen_nil in Hlen; pose proof (zlen_nonneg l); lia).
+    destruct per as [|it [|it2 ptl]]; try (len_contra Hlen).
     destruct it as [| a b c | | | |]; try discriminate Hsl.
     cbn [all_ok] in Hv. split_ok Hv.
     assert (Hk' : k = 0 \/ k = 1 \/ k = 2) by lia.
     assert (Hn : 0 <= n_time {| shape := [t1]; dat := N1 r; s0 := xs0; fsn := xfn; fsd := xfd; chan := LOne z; meta := LOne z0 |})
       by (unfold n_time; cbn; pose proof (zlen_nonneg r); lia).
-    destruct Hk' as [->|[->|->]]; cbn [Z.to_nat repeat app Pos.to_nat Pos.iter_op Nat.add map conv1] in Hnorm;
+    destruct Hk' as [-> | [-> | ->]]; norm_nat Hnorm;
       (eexists; eexists; split; [reflexivity|]; split; [reflexivity|]);
-      rewrite (getitem_fixups _ _ _ _ _ (Hnp _ _ eq_refl eq_refl) Hnorm);
+      (erewrite getitem_fixups; [ | cbn [shape dat]; eapply Hnp; reflexivity | exact Hnorm ]);
       unfold fixups; cbn [split3]; rewrite (fix_time_slice _ _ _ _ Hn);
       cbn [shape dat chan meta s0 fsn fsd time_item last slice_start slice_step spec_chan spec_meta
            fix_chan fix_meta wrap_lab Z.gtb Z.compare].
-    + reflexivity.
+    + unfold finalize_chan. destruct (z =? none_id) eqn:Ez; reflexivity.
     + unfold finalize_chan. destruct (z =? none_id) eqn:Ez; cbn.
       * apply Z.eqb_eq in Ez. subst z. reflexivity.
       * reflexivity.
@@ -379,38 +386,323 @@ Proof.
   - (* 2-D *)
     destruct Hwf as (Ht & [Hb1 Hb2] & Hl).
     change (zlen [t1; t2]) with 2 in *.
-    destruct per as [|ic [|it [|? ?]]]; try (rewrite ?zlen_cons, ?zlen_nil in Hlen; pose proof (zlen_nonneg l); lia).
+    destruct per as [|ic [|it [|it2 ptl]]]; try (len_contra Hlen).
     destruct it as [| a b0 c | | | |]; try discriminate Hsl.
     cbn [all_ok] in Hv. split_ok Hv.
     assert (Hk' : k = 0 \/ k = 1) by lia.
     assert (Hn : 0 <= n_time {| shape := [t1; t2]; dat := N2 b; s0 := xs0; fsn := xfn; fsd := xfd; chan := LMany zs; meta := LOne z |})
       by (unfold n_time; cbn; lia).
-    inversion HF as [|? ? Hpic _]; subst. apply plain_axis_item in Hpic.
+    pose proof (Forall_inv HF) as Hpic. apply plain_axis_item in Hpic.
     rewrite <- Hl in Hok.
-    destruct Hk' as [->|->]; cbn [Z.to_nat repeat app Pos.to_nat Pos.iter_op Nat.add map conv1] in Hnorm;
+    destruct Hk' as [-> | ->]; norm_nat Hnorm;
       destruct ic; try discriminate Hpic;
       (eexists; eexists; split; [reflexivity|]; split; [reflexivity|]);
-      rewrite (getitem_fixups _ _ _ _ _ (Hnp _ _ eq_refl eq_refl) Hnorm);
+      (erewrite getitem_fixups; [ | cbn [shape dat]; eapply Hnp; reflexivity | exact Hnorm ]);
       unfold fixups; cbn [split3]; rewrite (fix_time_slice _ _ _ _ Hn);
       cbn [shape dat chan meta s0 fsn fsd finalize_chan]; rewrite (fix_chan_sel _ _ Hpic Hok);
       reflexivity.
   - (* 3-D *)
     destruct Hwf as (Hc & Ht & He & Hrect & Hl & Hm).
     change (zlen [t1; t2; t3]) with 3 in *.
-    destruct per as [|ie [|ic [|it [|? ?]]]]; try (rewrite ?zlen_cons, ?zlen_nil in Hlen; pose proof (zlen_nonneg l); lia).
+    destruct per as [|ie [|ic [|it [|it2 ptl]]]]; try (len_contra Hlen).
     destruct it as [| a b0 c | | | |]; try discriminate Hsl.
     cbn [all_ok] in Hv. split_ok Hv.
     assert (k = 0) by lia. subst k.
     assert (Hn : 0 <= n_time {| shape := [t1; t2; t3]; dat := N3 d; s0 := xs0; fsn := xfn; fsd := xfd; chan := LMany zs; meta := LMany zs0 |})
       by (unfold n_time; cbn; lia).
-    inversion HF as [|? ? Hpie HF']; subst. inversion HF' as [|? ? Hpic _]; subst.
+    pose proof (Forall_inv HF) as Hpie. pose proof (Forall_inv (Forall_inv_tail HF)) as Hpic.
     apply plain_axis_item in Hpic. apply plain_axis_item in Hpie.
     rewrite <- Hm in Hok. rewrite <- Hl in Hok0.
-    cbn [Z.to_nat repeat app map conv1] in Hnorm;
+    norm_nat Hnorm;
       destruct ie; try discriminate Hpie; destruct ic; try discriminate Hpic;
       (eexists; eexists; split; [reflexivity|]; split; [reflexivity|]);
-      rewrite (getitem_fixups _ _ _ _ _ (Hnp _ _ eq_refl eq_refl) Hnorm);
+      (erewrite getitem_fixups; [ | cbn [shape dat]; eapply Hnp; reflexivity | exact Hnorm ]);
       unfold fixups; cbn [split3]; rewrite (fix_time_slice _ _ _ _ Hn);
       cbn [shape dat chan meta s0 fsn fsd finalize_chan]; rewrite (fix_chan_sel _ _ Hpic Hok0);
       rewrite (fix_meta_sel _ _ Hpie Hok); reflexivity.
+Qed.
+
+(* the `index.all()` shortcut for a bare all-True boolean array gives the same result as the general path *)
+Lemma shortcut_same x bs :
+  wf x -> forallb (fun b => b) bs = true -> zlen bs = hd 0 (shape x) ->
+  getitem x {| sole := true; items := [IMask bs true] |} = getitem x {| sole := false; items := [IMask bs true] |}.
+Proof.
+  intros Hwf Hall Hlen. unfold getitem, getitem_gen. cbn [items].
+  destruct (np_getitem (shape x) (dat x) [IMask bs true]) as [| v | sh' d' | sh']; try reflexivity.
+  - (* array *)
+    unfold normalize_index. cbn [sole items]. rewrite Hall.
+    wf_cases x Hwf; unfold ndim; cbn [shape dat chan meta s0 fsn fsd hd] in *.
+    + change (zlen [t1]) with 1. change (Z.to_nat 1) with 1%nat.
+      change (normalize_tuple true 1 [IMask bs true]) with (inr [NListB bs] : err + list nitem).
+      cbn [repeat split3 fix_time fix_chan fix_meta finalize_chan nfull step_of s0 fsd]. rewrite Hall. reflexivity.
+    + destruct Hwf as (Ht & [Hb1 Hb2] & Hl).
+      change (zlen [t1; t2]) with 2. change (Z.to_nat 2) with 2%nat.
+      change (normalize_tuple true 2 [IMask bs true]) with (inr [NListB bs; nfull] : err + list nitem).
+      cbn [repeat split3 fix_time fix_chan fix_meta finalize_chan nfull step_of s0 fsd].
+      replace (zlen bs =? zlen zs) with true by lia.
+      rewrite py_slice_step_full, mask_sel_all by (assumption || lia). reflexivity.
+    + destruct Hwf as (Hc & Ht & He & Hrect & Hl & Hm).
+      change (zlen [t1; t2; t3]) with 3. change (Z.to_nat 3) with 3%nat.
+      change (normalize_tuple true 3 [IMask bs true]) with (inr [NListB bs; nfull; nfull] : err + list nitem).
+      cbn [repeat split3 fix_time fix_chan fix_meta finalize_chan nfull step_of s0 fsd].
+      replace (zlen bs =? zlen zs0) with true by lia.
+      rewrite !py_slice_step_full, mask_sel_all by (assumption || lia). reflexivity.
+  - unfold normalize_index. cbn [sole items]. rewrite Hall.
+    wf_cases x Hwf; unfold ndim; cbn [shape].
+    + change (normalize_tuple true (zlen [t1]) [IMask bs true]) with (inr [NListB bs] : err + list nitem). reflexivity.
+    + change (normalize_tuple true (zlen [t1; t2]) [IMask bs true]) with (inr [NListB bs; nfull] : err + list nitem). reflexivity.
+    + change (normalize_tuple true (zlen [t1; t2; t3]) [IMask bs true]) with (inr [NListB bs; nfull; nfull] : err + list nitem). reflexivity.
+Qed.
+
+Theorem getitem_regular x ix k per :
+  wf x -> denotes (ndim x) ix k per -> valid_on (shape x) per ->
+  exists d0 d', np_regular (dat x) per = Some d0 /\ wrap_new k d0 = Some d' /\
+                getitem x ix = RArr (spec_result x k per d').
+Proof.
+  intros Hwf Hd Hv.
+  destruct (all_true_arr ix) eqn:E; [|now apply getitem_regular_tuple].
+  unfold all_true_arr in E. destruct ix as [so its]. cbn [sole items] in *.
+  destruct so; [|discriminate]. cbn [andb] in E.
+  destruct its as [|[| | |bs [|]| |] [|? ?]]; try discriminate.
+  assert (Hb : zlen bs = hd 0 (shape x)).
+  { destruct Hd as (ex & He & Hs & _). cbn [items] in He. unfold np_expand in He. cbn in He.
+    destruct (1 >? ndim x); [discriminate|]. injection He as <-.
+    cbn in Hs. injection Hs as <- <-.
+    unfold valid_on in Hv. cbn [all_ok app] in Hv.
+    destruct (shape x) as [|n sh]; [discriminate|]. cbn [hd].
+    apply andb_prop in Hv. destruct Hv as [Hv _]. cbn [sel_ok] in Hv. lia. }
+  rewrite (shortcut_same _ _ Hwf E Hb).
+  apply getitem_regular_tuple; [reflexivity | exact Hwf | exact Hd | exact Hv].
+Qed.
+
+(* ------------------------------------------------------------------ selections are sub-lists *)
+Lemma every_nth_incl {A} (l : list A) : forall k s, incl (every_nth_aux k s l) l.
+Proof.
+  induction l as [|x l IH]; intros k s; [apply incl_refl|].
+  cbn [every_nth_aux]. destruct k.
+  - apply incl_cons; [now left | apply incl_tl, IH].
+  - apply incl_tl, IH.
+Qed.
+
+Lemma firstn_incl {A} n (l : list A) : incl (firstn n l) l.
+Proof. intros a H. rewrite <- (firstn_skipn n l). apply in_or_app. now left. Qed.
+Lemma skipn_incl {A} n (l : list A) : incl (skipn n l) l.
+Proof. intros a H. rewrite <- (firstn_skipn n l). apply in_or_app. now right. Qed.
+
+Lemma py_slice_incl {A} a b (l : list A) : incl (py_slice a b l) l.
+Proof. unfold py_slice. eapply incl_tran; [apply firstn_incl | apply skipn_incl]. Qed.
+
+Lemma mask_sel_incl {A} bs (l : list A) : incl (mask_sel bs l) l.
+Proof.
+  revert l. induction bs as [|b bs IH]; intros l; [intros a []|].
+  destruct l as [|x l]; [intros a []|]. cbn [mask_sel]. destruct b.
+  - apply incl_cons; [now left | apply incl_tl, IH].
+  - apply incl_tl, IH.
+Qed.
+
+Lemma py_index_In {A} (d : A) l z : idx_ok (zlen l) z = true -> In (py_index d l z) l.
+Proof.
+  unfold idx_ok, py_index, norm_idx. intros H. apply nth_In.
+  unfold zlen in *. destruct (z <? 0) eqn:E; lia.
+Qed.
+
+Lemma take_sel_incl {A} (d : A) it l : sel_ok (zlen l) it = true -> incl (take_sel d it l) l.
+Proof.
+  destruct it; cbn [take_sel sel_ok]; intros H; try apply incl_refl.
+  - unfold py_slice_step. eapply incl_tran; [apply every_nth_incl | apply py_slice_incl].
+  - intros a Ha. apply in_map_iff in Ha. destruct Ha as (z & <- & Hz).
+    apply py_index_In. rewrite forallb_forall in H. now apply H.
+  - apply mask_sel_incl.
+Qed.
+
+(* ------------------------------------------------------------------ rows of a regular selection *)
+Lemma rows_wrap k d d' : wrap_new k d = Some d' -> rows d' = rows d.
+Proof.
+  unfold wrap_new. destruct (k =? 0); [intros H; now injection H as <-|].
+  destruct d; [destruct (k =? 1); [|destruct (k =? 2)] | destruct (k =? 1) |]; intros H; try discriminate;
+    injection H as <-; cbn [rows concat]; rewrite ?app_nil_r; reflexivity.
+Qed.
+
+Definition wf_dat (sh : list Z) (d : nest) : Prop :=
+  match sh, d with
+  | [t], N1 r => zlen r = t
+  | [c; t], N2 b => rect c t b
+  | [e; c; t], N3 d => zlen d = e /\ Forall (rect c t) d
+  | _, _ => False
+  end.
+
+Lemma wf_wf_dat x : wf x -> wf_dat (shape x) (dat x).
+Proof.
+  intros H. wf_cases x H; cbn [shape dat wf_dat].
+  - exact H.
+  - tauto.
+  - tauto.
+Qed.
+
+(* a uniform view of one axis: what an item keeps of the sequence laid out along the axis (an int keeps one entry) *)
+Definition axsel {A} (d : A) (it : item) (l : list A) : list A :=
+  match it with IInt z => [py_index d l z] | _ => take_sel d it l end.
+
+Lemma axsel_incl {A} (d : A) it l : sel_ok (zlen l) it = true -> incl (axsel d it l) l.
+Proof.
+  destruct it; try apply take_sel_incl. cbn [axsel sel_ok]. intros H a [<-|[]]. now apply py_index_In.
+Qed.
+
+Lemma concat_map_singleton {A B} (f : A -> B) l : concat (map (fun a => [f a]) l) = map f l.
+Proof. induction l as [|a l IH]; [reflexivity|]. cbn. now rewrite IH. Qed.
+
+Lemma rows_sel_c ic it blk : rows (sel_c ic it blk) = map (sel_t it) (axsel [] ic blk).
+Proof. destruct ic; reflexivity. Qed.
+
+Lemma rows_sel_e ie ic it d :
+  rows (sel_e ie ic it d) = concat (map (fun blk => map (sel_t it) (axsel [] ic blk)) (axsel [] ie d)).
+Proof.
+  destruct ie; cbn [sel_e axsel map concat]; rewrite ?app_nil_r; try apply rows_sel_c;
+    destruct ic; cbn [rows axsel map]; try reflexivity; symmetry; apply concat_map_singleton.
+Qed.
+
+Lemma rows_regular sh d per d0 :
+  wf_dat sh d -> all_ok per sh = true -> np_regular d per = Some d0 ->
+  Forall (fun row' => exists row, In row (rows d) /\ row' = sel_t (time_item per) row) (rows d0).
+Proof.
+  intros Hwf Hok Hr. apply Forall_forall. intros row' Hin.
+  destruct d as [r | b | e]; destruct per as [|i1 [|i2 [|i3 [|? ?]]]]; try discriminate Hr;
+    cbn [np_regular] in Hr; injection Hr as <-; cbn [time_item last];
+    destruct sh as [|t1 [|t2 [|t3 [|? ?]]]]; try contradiction; cbn [wf_dat all_ok] in *; split_ok Hok.
+  - cbn [rows] in *. destruct Hin as [<-|[]]. exists r. split; [now left | reflexivity].
+  - destruct Hwf as [Hb1 Hb2]. rewrite <- Hb1 in Hok0.
+    rewrite rows_sel_c in Hin. apply in_map_iff in Hin. destruct Hin as (row & <- & Hrow).
+    exists row. split; [|reflexivity]. cbn [rows]. eapply axsel_incl; eassumption.
+  - destruct Hwf as [He Hrect]. rewrite <- He in Hok0.
+    rewrite rows_sel_e in Hin. apply in_concat in Hin. destruct Hin as (rs & Hrs & Hrow).
+    apply in_map_iff in Hrs. destruct Hrs as (blk & <- & Hb).
+    apply (axsel_incl _ _ _ Hok0) in Hb.
+    apply in_map_iff in Hrow. destruct Hrow as (row & <- & Hrow).
+    exists row. split; [|reflexivity]. cbn [rows]. apply in_concat. exists blk. split; [exact Hb|].
+    rewrite Forall_forall in Hrect. destruct (Hrect _ Hb) as [Hz _]. rewrite <- Hz in Hok1.
+    eapply axsel_incl; eassumption.
+Qed.
+
+(* ------------------------------------------------------------------ the time axis *)
+Lemma zr_length {A} (f : Z -> A) n : forall lo, length (zr f lo n) = n.
+Proof. induction n as [|n IH]; intros lo; cbn; [reflexivity | now rewrite IH]. Qed.
+
+Lemma skipn_zr {A} (f : Z -> A) k : forall lo n, skipn k (zr f lo n) = zr f (lo + Z.of_nat k) (n - k).
+Proof.
+  induction k as [|k IH]; intros lo n.
+  - cbn [skipn]. rewrite Z.add_0_r, Nat.sub_0_r. reflexivity.
+  - destruct n as [|n]; [reflexivity|]. cbn [zr skipn]. rewrite IH. f_equal. lia.
+Qed.
+
+Lemma firstn_zr {A} (f : Z -> A) k : forall lo n, firstn k (zr f lo n) = zr f lo (Nat.min k n).
+Proof.
+  induction k as [|k IH]; intros lo n; [reflexivity|].
+  destruct n as [|n]; [reflexivity|]. cbn [zr firstn Nat.min]. now rewrite IH.
+Qed.
+
+Lemma zlen_zrange {A} (f : Z -> A) lo n : 0 <= n -> zlen (zrange f lo n) = n.
+Proof. intros H. unfold zlen, zrange. rewrite zr_length. lia. Qed.
+
+Lemma adj_bound_range n b : 0 <= n -> 0 <= adj_bound n b <= n.
+Proof. intros H. unfold adj_bound. destruct (b <? 0) eqn:E; lia. Qed.
+Lemma py_lo_range n a : 0 <= n -> 0 <= py_lo n a <= n.
+Proof. intros H. destruct a; cbn [py_lo]; [now apply adj_bound_range | lia]. Qed.
+Lemma py_hi_range n a : 0 <= n -> 0 <= py_hi n a <= n.
+Proof. intros H. destruct a; cbn [py_hi]; [now apply adj_bound_range | lia]. Qed.
+
+Lemma py_slice_len_1 n a b : py_slice_len n a b 1 = Z.max 0 (py_hi n b - py_lo n a).
+Proof. unfold py_slice_len. destruct (py_hi n b <=? py_lo n a) eqn:E; [lia|]. rewrite Z.div_1_r. lia. Qed.
+
+Lemma py_slice_zrange s n a b : 0 <= n ->
+  py_slice a b (zrange (fun i => i) s n) = zrange (fun i => i) (s + py_lo n a) (py_slice_len n a b 1).
+Proof.
+  intros Hn. unfold py_slice. rewrite zlen_zrange by exact Hn.
+  pose proof (py_lo_range n a Hn). pose proof (py_hi_range n b Hn).
+  unfold zrange. rewrite skipn_zr, firstn_zr, py_slice_len_1. f_equal; lia.
+Qed.
+
+Lemma time_item_last per : per <> [] -> last per IEllipsis = time_item per.
+Proof.
+  unfold time_item. induction per as [|a [|b t] IH]; intros H; [congruence | reflexivity |].
+  change (last (a :: b :: t) IEllipsis) with (last (b :: t) IEllipsis).
+  change (last (a :: b :: t) full) with (last (b :: t) full). apply IH. discriminate.
+Qed.
+
+Lemma out_shape_last per : forall sh pre, per <> [] -> length per = length sh ->
+  is_int (time_item per) = false ->
+  last (pre ++ out_shape per sh) 0 = sel_len (last sh 0) (time_item per).
+Proof.
+  induction per as [|it [|it2 t] IH]; intros sh pre Hne Hlen Hint; [congruence | |].
+  - destruct sh as [|n [|? ?]]; try discriminate Hlen. cbn [time_item last] in *. cbn [out_shape].
+    rewrite Hint. apply last_last.
+  - destruct sh as [|n sh]; [discriminate Hlen|]. injection Hlen as Hlen.
+    destruct sh as [|n2 sh]; [discriminate Hlen|].
+    change (time_item (it :: it2 :: t)) with (time_item (it2 :: t)) in *.
+    change (last (n :: n2 :: sh) 0) with (last (n2 :: sh) 0).
+    cbn [out_shape]. destruct (is_int it).
+    + apply IH; [discriminate | exact Hlen | exact Hint].
+    + change (pre ++ sel_len n it :: ?r) with (pre ++ [sel_len n it] ++ r). rewrite app_assoc.
+      apply IH; [discriminate | exact Hlen | exact Hint].
+Qed.
+
+Lemma zlen_length_eq {A B} (a : list A) (b : list B) : zlen a = zlen b -> length a = length b.
+Proof. unfold zlen. lia. Qed.
+
+(* facts shared by the theorems about the time item *)
+Lemma regular_time_facts x ix k per r a b c :
+  wf x -> denotes (ndim x) ix k per -> valid_on (shape x) per -> time_item per = ISlice a b c ->
+  getitem x ix = RArr r ->
+  0 <= n_time x /\ 1 <= step_of c /\
+  fsn r = fsn x /\ fsd r = fsd x * step_of c /\ s0 r = s0 x + py_lo (n_time x) a /\
+  n_time r = py_slice_len (n_time x) a b (step_of c) /\
+  Forall (fun row' => exists row, In row (rows (dat x)) /\ row' = py_slice_step a b (step_of c) row) (rows (dat r)).
+Proof.
+  intros Hwf Hd Hv Hti Hget.
+  destruct (getitem_regular _ _ _ _ Hwf Hd Hv) as (d0 & d' & Hr0 & Hw & Hg).
+  rewrite Hg in Hget. injection Hget as <-.
+  destruct (denotes_shape _ _ _ _ Hd) as (ex & _ & _ & _ & Hk0 & Hk & Hlen & HF & Hsl & _).
+  assert (Hne : per <> []) by (intros ->; unfold ndim in Hlen; wf_cases x Hwf; discriminate Hlen).
+  assert (Hn : 0 <= n_time x).
+  { unfold n_time. wf_cases x Hwf; cbn [shape last]; [pose proof (zlen_nonneg r); lia | tauto | tauto]. }
+  assert (Hstep : 1 <= step_of c).
+  { unfold valid_on in Hv. clear - Hv Hti Hne Hlen. unfold ndim in Hlen. apply zlen_length_eq in Hlen.
+    revert Hv Hlen. generalize (shape x). induction per as [|it [|it2 t] IH]; intros sh Hv Hlen; [congruence | |].
+    - destruct sh as [|n [|? ?]]; try discriminate Hlen. cbn [time_item last] in Hti. subst it.
+      cbn [all_ok sel_ok] in Hv. lia.
+    - destruct sh as [|n sh]; [discriminate Hlen|]. cbn [all_ok] in Hv. apply andb_prop in Hv. destruct Hv as [_ Hv].
+      apply (IH ltac:(discriminate) Hti sh Hv). now injection Hlen. }
+  unfold spec_result. cbn [fsn fsd s0 dat]. rewrite Hti. cbn [slice_start slice_step].
+  repeat split; try assumption.
+  - unfold n_time at 1. cbn [shape]. unfold ndim in Hlen.
+    rewrite out_shape_last; [rewrite Hti; reflexivity | exact Hne | now apply zlen_length_eq | now rewrite Hti].
+  - rewrite (rows_wrap _ _ _ Hw).
+    pose proof (rows_regular _ _ _ _ (wf_wf_dat _ Hwf) Hv Hr0) as H. rewrite Hti in H. exact H.
+Qed.
+
+Theorem time_axis_commutes x ix k per r a b c :
+  wf x -> denotes (ndim x) ix k per -> valid_on (shape x) per -> time_item per = ISlice a b c ->
+  step_of c = 1 -> getitem x ix = RArr r ->
+  fsn r = fsn x /\ fsd r = fsd x /\ taxis r = py_slice a b (taxis x) /\
+  Forall (fun row' => exists row, In row (rows (dat x)) /\ row' = py_slice a b row) (rows (dat r)).
+Proof.
+  intros Hwf Hd Hv Hti Hc Hget.
+  destruct (regular_time_facts _ _ _ _ _ _ _ _ Hwf Hd Hv Hti Hget) as (Hn & _ & H1 & H2 & H3 & H4 & H5).
+  rewrite Hc in *. repeat split.
+  - exact H1.
+  - lia.
+  - unfold taxis. rewrite H3, H4. symmetry. now apply py_slice_zrange.
+  - eapply Forall_impl; [|exact H5]. cbn beta. intros row' (row & Hin & ->). exists row. split; [exact Hin|].
+    apply py_slice_step_1.
+Qed.
+
+Theorem stride_rate x ix k per r a b c :
+  wf x -> denotes (ndim x) ix k per -> valid_on (shape x) per -> time_item per = ISlice a b c ->
+  getitem x ix = RArr r ->
+  1 <= step_of c /\ fsn r = fsn x /\ fsd r = fsd x * step_of c /\
+  n_time r = py_slice_len (n_time x) a b (step_of c) /\
+  Forall (fun row' => exists row, In row (rows (dat x)) /\ row' = py_slice_step a b (step_of c) row) (rows (dat r)).
+Proof.
+  intros Hwf Hd Hv Hti Hget.
+  destruct (regular_time_facts _ _ _ _ _ _ _ _ Hwf Hd Hv Hti Hget) as (Hn & H0 & H1 & H2 & H3 & H4 & H5).
+  tauto.
 Qed.
